@@ -1,12 +1,53 @@
-"""C15 - verifiers count only signature shares valid for the block being signed."""
+"""C15 - verifiers count only signature shares valid for the block being signed.
+
+Extension (SignParty): admission of cast / verify messages by the real Processor, buffering and
+replay of early messages, party re-keying, time-out, finalisation.  Its judgements are tagged
+Ext.* (informational) except the literal restatement of C15's first clause on that path."""
 import json
 import os
 import random
 import re
+import threading
+import time
 
 from common import Inconclusive, add_violations_from_bad, finish, log
 
 KINDS = ["honest", "otherHash", "replay", "garbage", "offcurve", "badRand", "emptyRand", "nonMember"]
+PARTY_TYPES = ["cast", "verify", "own", "wrongBlock", "timeout"]
+MAX_JVMS = 3
+
+
+def overlapped(jobs):
+    """Run callables (each one TLC JVM) at most MAX_JVMS at a time; results in order.
+    Starts are staggered: ctx.tlc numbers its run directory in its first instructions."""
+    results = [None] * len(jobs)
+    errors = []
+    sem = threading.Semaphore(MAX_JVMS)
+
+    def work(i, fn):
+        try:
+            results[i] = fn()
+        except BaseException as e:       # Inconclusive included: re-raised in the caller's thread
+            errors.append(e)
+        finally:
+            sem.release()
+
+    threads = []
+    for i, fn in enumerate(jobs):
+        sem.acquire()
+        t = threading.Thread(target=work, args=(i, fn))
+        t.start()
+        threads.append(t)
+        time.sleep(0.4)
+    for t in threads:
+        t.join()
+    if errors:
+        raise errors[0]
+    return results
+
+
+def parse(raw):
+    return json.loads(raw.strip()[1:-1].replace('\\"', '"'))
 
 
 def gen_histories(ctx, byz, depth):
@@ -23,69 +64,158 @@ INVARIANTS GenInv Dump
 CHECK_DEADLOCK FALSE
 """ % (", ".join(str(b) for b in byz), depth)
     res = ctx.tlc("SignRoundGen", cfg_text=cfg, timeout=1500)
-    hs = [json.loads(raw.strip()[1:-1].replace('\\"', '"')) for raw in ctx.tlc_lines(res, "HIST")]
+    hs = [parse(raw) for raw in ctx.tlc_lines(res, "HIST")]
     if not hs:
         raise Inconclusive("TLC generated no histories")
     return res, hs
 
 
-def run(ctx):
-    quick = ctx.quick()
-    # 1. design level: the reference handler keeps the three invariants for every message order;
-    #    the as-coded handler (share checked against the sender-supplied hash) is explored for candidates
-    ref = ctx.tlc("SignRound", cfg="SignRound.cfg" if quick else "SignRound_wide.cfg", coverage=not quick, timeout=1500)
-    ascoded = {}
-    for inv in ("OnlyValidShares", "ThresholdImpliesValidGroupSig", "OneFaultTolerated"):
-        r = ctx.tlc("SignRound", cfg="SignRound_ascoded_%s.cfg" % inv, allow_violation=True)
-        ascoded[inv] = bool(r["error"])
-    # 2. TLC-generated message sequences
-    gen, hists = gen_histories(ctx, [4], 5)
-    rnd = random.Random(ctx.seed)
-    rnd.shuffle(hists)
-    want = 1600 if quick else len(hists)
-    chosen = hists[:want]
-    drv = ctx.build("c15")
-    shards = 8 if quick else 16
-    argvs, traces = [], []
-    for k in range(shards):
-        part = chosen[k::shards]
-        sp = os.path.join(ctx.scratch, "script%d.json" % k)
-        json.dump(part, open(sp, "w"))
-        tp = os.path.join(ctx.scratch, "trace%d.ndjson" % k)
-        traces.append(tp)
-        argvs.append([drv, "--script", sp, "--out", tp, "--scratch", os.path.join(ctx.scratch, "run%d" % k), "--salt", str(k)])
-    outs = ctx.run_parallel(argvs, timeout=1500)
+PARTY_CFG = """SPECIFICATION Spec
+CONSTANTS
+  Props = {"A", "A2", "B"}
+  Others = {2, 3}
+  KThr = 2
+  MaxDup = 1
+  MaxLen = %d
+  MaxTimeouts = 1
+INVARIANTS GenInv Dump
+CHECK_DEADLOCK FALSE
+"""
+
+
+def gen_party(ctx, maxlen, simulate=None, depth=None):
+    """Handler-call sequences of SignParty: exhaustive to maxlen, or seeded simulation."""
+    kw = {}
+    if simulate:
+        kw = dict(simulate="num=%d" % simulate, depth=depth, extra=("-seed", str(ctx.seed)), workers=2)
+    res = ctx.tlc("SignPartyGen", cfg_text=PARTY_CFG % maxlen, timeout=1500, **kw)
+    seen, hs = set(), []
+    for raw in ctx.tlc_lines(res, "HIST"):
+        if raw in seen:
+            continue
+        seen.add(raw)
+        hs.append(parse(raw))
+    if not hs:
+        raise Inconclusive("TLC generated no party sequences")
+    return res, hs
+
+
+def has_timeout(h):
+    return any(m["type"] == "timeout" for m in h["h"])
+
+
+def choose_party(rnd, short, deep, n_short, n_deep, n_two, n_timeout):
+    """Stratified seeded sample: short exhaustive sequences, deep simulated ones, sequences in which
+    the model finalises two blocks, and a bounded number with a time-out (10 s of wall time each)."""
+    rnd.shuffle(short)
+    rnd.shuffle(deep)
+    out = [h for h in short if not has_timeout(h)][:n_short]
+    deep_nt = [h for h in deep if not has_timeout(h)]
+    out += [h for h in deep_nt if h["nadd"] >= 2][:n_two]
+    out += [h for h in deep_nt if h["nadd"] < 2][:n_deep]
+    tos = [h for h in short if has_timeout(h)][:n_timeout // 2] + [h for h in deep if has_timeout(h)][:n_timeout - n_timeout // 2]
+    return out, tos
+
+
+def summary(outs, prefix):
     counts = {}
     for o in outs:
-        line = [l for l in o.splitlines() if l.startswith("c15:")]
+        line = [l for l in o.splitlines() if l.startswith(prefix)]
         if not line:
             print(o[-2000:])
             raise Inconclusive("driver printed no summary")
         for key, v in re.findall(r"(\w+)=(\d+)", line[-1]):
             counts[key] = counts.get(key, 0) + int(v)
+    return counts
+
+
+def run(ctx):
+    quick = ctx.quick()
+    rnd = random.Random(ctx.seed)
+    # 1. design level (C15): the reference handler keeps the three invariants for every message order; the
+    #    as-coded handler of the pinned tree before the fix is explored for candidate scenarios.
+    #    Extension: the party/processor model keeps its design invariants; one slot invariant is known not to hold.
+    jobs = [
+        lambda: ctx.tlc("SignRound", cfg="SignRound.cfg" if quick else "SignRound_wide.cfg", coverage=not quick, timeout=1500),
+        lambda: gen_histories(ctx, [4], 5),
+        lambda: ctx.tlc("SignParty", cfg="SignParty.cfg", coverage=not quick, timeout=1500),
+        lambda: gen_party(ctx, 4 if quick else 5),
+        lambda: gen_party(ctx, 9, simulate=150 if quick else 2500, depth=10),
+        lambda: ctx.tlc("SignParty", cfg="SignParty_slot.cfg", allow_violation=True),
+    ]
+    for inv in ("OnlyValidShares", "ThresholdImpliesValidGroupSig", "OneFaultTolerated"):
+        jobs.append(lambda inv=inv: ctx.tlc("SignRound", cfg="SignRound_ascoded_%s.cfg" % inv, allow_violation=True))
+    res = overlapped(jobs)
+    ref, (gen, hists), pref, (pgen, pshort), (psim, pdeep), pslot = res[:6]
+    ascoded = {inv: bool(r["error"]) for inv, r in zip(("OnlyValidShares", "ThresholdImpliesValidGroupSig", "OneFaultTolerated"), res[6:])}
+    # 2. TLC-generated message sequences (C15) and handler-call sequences (extension)
+    rnd.shuffle(hists)
+    chosen = hists[:1600 if quick else len(hists)]
+    if quick:
+        pchosen, ptimeouts = choose_party(rnd, pshort, pdeep, 150, 60, 12, 8)
+    else:
+        pchosen, ptimeouts = choose_party(rnd, pshort, pdeep, 5000, 1500, 200, 96)
+    drv = ctx.build("c15")
+    pdrv = ctx.build("c15p")
+    shards = 8 if quick else 16
+    pshards = 4 if quick else 8
+    argvs, traces, ptraces = [], [], []
+    for k in range(shards):
+        sp = os.path.join(ctx.scratch, "script%d.json" % k)
+        json.dump(chosen[k::shards], open(sp, "w"))
+        tp = os.path.join(ctx.scratch, "trace%d.ndjson" % k)
+        traces.append(tp)
+        argvs.append([drv, "--script", sp, "--out", tp, "--scratch", os.path.join(ctx.scratch, "run%d" % k), "--salt", str(k)])
+    for k in range(pshards):
+        sp = os.path.join(ctx.scratch, "pscript%d.json" % k)
+        # sequences with a time-out first: their 10 s waits overlap with the replay of the others
+        json.dump(ptimeouts[k::pshards] + pchosen[k::pshards], open(sp, "w"))
+        tp = os.path.join(ctx.scratch, "ptrace%d.ndjson" % k)
+        ptraces.append(tp)
+        argvs.append([pdrv, "--script", sp, "--out", tp, "--scratch", os.path.join(ctx.scratch, "prun%d" % k), "--salt", str(k),
+                      "--workers", "16" if quick else "24"])
+    outs = ctx.run_parallel(argvs, timeout=1500)
+    counts = summary(outs[:shards], "c15:")
+    pcounts = summary(outs[shards:], "c15p:")
     for need in KINDS + ["wire", "recovered", "messages"]:
         if counts.get(need, 0) == 0:
             raise Inconclusive("vacuity: no %s occurred in the driven sequences" % need)
-    total = 0
-    samples = []
-    # merge shard traces pairwise (a Start event resets the bound state): fewer JVM starts
+    for need in PARTY_TYPES + ["finalised", "twoBlocks"]:
+        if pcounts.get(need, 0) == 0:
+            raise Inconclusive("vacuity (extension): no %s occurred in the driven party sequences" % need)
+    # 3. monitors: merged shard traces (a Start event resets the bound state), at most MAX_JVMS at a time
     merged = []
     for k in range(0, len(traces), 4):
         mp = os.path.join(ctx.scratch, "trace-m%d.ndjson" % k)
         with open(mp, "w") as f:
             for tp in traces[k:k + 4]:
                 f.write(open(tp).read())
-        merged.append(mp)
-    for tp in merged:
-        n, bad = ctx.validate_trace("SignRoundTrace", tp, timeout=1500)
-        total += n
+        merged.append(("SignRoundTrace", mp))
+    pm = os.path.join(ctx.scratch, "ptrace-all.ndjson")
+    with open(pm, "w") as f:
+        for tp in ptraces:
+            f.write(open(tp).read())
+    merged.append(("SignPartyTrace", pm))
+    verdicts = overlapped([lambda mod=mod, tp=tp: ctx.validate_trace(mod, tp, timeout=1500) for mod, tp in merged])
+    total, ptotal = 0, 0
+    samples, psamples = [], []
+    for (mod, tp), (n, bad) in zip(merged, verdicts):
         add_violations_from_bad(ctx, bad, tp, reset_event="Start")
-        if not samples:
+        if mod == "SignRoundTrace":
+            total += n
+            if not samples:
+                with open(tp) as f:
+                    for line in f:
+                        e = json.loads(line)
+                        if e["event"] == "Msg" and e["m"]["kind"] not in [s["m"]["kind"] for s in samples] and len(samples) < 4:
+                            samples.append(e)
+        else:
+            ptotal += n
             with open(tp) as f:
                 for line in f:
                     e = json.loads(line)
-                    if e["event"] == "Msg" and e["m"]["kind"] not in [s["m"]["kind"] for s in samples] and len(samples) < 4:
-                        samples.append(e)
+                    if e["event"] == "Call" and e["m"]["type"] not in [s["m"]["type"] for s in psamples]:
+                        psamples.append(e)
     coverage = {
         "states": ref["distinct"] + gen["distinct"],
         "transitions": ref["generated"] + gen["generated"],
@@ -101,16 +231,37 @@ def run(ctx):
         "samples": samples,
         "action_coverage": ref["coverage"],
         "exhaustive": len(chosen) == len(hists),
+        "extension_party": {
+            "model_states": pref["distinct"] + pgen["distinct"],
+            "model_transitions": pref["generated"] + pgen["generated"],
+            "simulated_walks_distinct": len(pdeep),
+            "slot_invariant_violated_in_model": bool(pslot["error"]),
+            "generated_sequences_exhaustive": len(pshort),
+            "generated_sequences_simulated": len(pdeep),
+            "sequences_replayed": pcounts["histories"],
+            "handler_calls": pcounts["calls"],
+            "calls_by_type": {k: pcounts[k] for k in PARTY_TYPES},
+            "sequences_finalising": pcounts["finalised"],
+            "sequences_finalising_two_blocks": pcounts["twoBlocks"],
+            "events_validated": ptotal,
+            "action_coverage": pref["coverage"],
+            "samples": psamples[:5],
+        },
         "explanation": "SignRound.tla (reference handler: add iff member, not duplicate, share valid for this block's hash, beacon share "
                        "valid) model-checked exhaustively for 4 members, threshold 3, <= 2 Byzantine/outsider messages, all orders; the "
                        "as-coded alternative is explored for candidate scenarios only. TLC generates every message sequence of length 5; "
                        "a seeded sample (thorough: all of them) is fed to the real round1.Update of a round built for a group from "
                        "the node's DKG, half of the sequences through the protobuf wire codec; after every message the share sets, the "
-                       "validity of every stored share, the recovery flags and round2.checkSignature are logged and judged by SignRoundTrace.",
+                       "validity of every stored share, the recovery flags and round2.checkSignature are logged and judged by SignRoundTrace. "
+                       "Extension SignParty.tla (cast admission, buffering/replay of early messages, party re-keying, time-out, "
+                       "finalisation; 3 members, threshold 2, three competing proposals of one slot): model-checked, sequences of handler "
+                       "calls generated exhaustively (short) and by seeded simulation (long), replayed on the real Processor over a real "
+                       "chain whose genesis holds the harness' proposer and DKG group, judged by SignPartyTrace (Ext.* observations).",
     }
     finish(ctx, "model_checking", coverage, [
-        "round 0 (acceptance of the proposer's cast message) is taken as done: the round is constructed with group, previous and proposed header injected (hook H3); the block chain is a stub that has no block with the proposed hash",
+        "round 0 (acceptance of the proposer's cast message) is taken as done in the C15 part: the round is constructed with group, previous and proposed header injected (hook H3); the block chain is a stub that has no block with the proposed hash",
         "member public shares are served by the real JoinedGroupStorage/GetMemberSignPubKey with the shares the DKG members derived; the requesting of unknown public shares over the network is disabled",
         "validity of a share = verdict of the real groupsig.VerifySig under the member's public share (C14 decides whether that verdict is right)",
         "4 members, threshold 3 (the node's GetGroupK), one Byzantine member plus one outsider",
+        "extension: the chain the parties finalise into records AddBlockOnChain instead of adding (every sequence starts from the genesis block); observations are taken at quiescence (25 ms without change of the projection); the passage of the 10 s party time-out is real; the pre-block-unknown wait of round 0 and LRU eviction of the buffers are not driven",
     ])
